@@ -82,7 +82,8 @@ def sample_part(ck, tier):
 
 
 class GaussND:
-    def __init__(self, mu, cov, lo, hi, point, events):
+    def __init__(self, mu, cov, lo, hi, point, events, offset=0.0):
+        self.offset = offset            # an additive constant of the log-posterior (an unnormalised posterior): conditionals do not depend on it
         self.mu, self.P = np.asarray(mu, dtype=float), np.linalg.inv(np.asarray(cov, dtype=float))
         self.lo, self.hi, self.point, self.ev = lo, hi, point, events
         self.logging = True
@@ -94,7 +95,7 @@ class GaussND:
             self.ev.append({"ev": "Eval", "inside": bool(np.all(t >= self.lo) and np.all(t <= self.hi)),
                             "others_fixed": len(diff) <= 1, "coord": (diff[0] + 1) if len(diff) == 1 else 0})
         d = t - self.mu
-        return float(-0.5 * d @ self.P @ d)
+        return float(-0.5 * d @ self.P @ d) + self.offset
 
 
 def conditional_part(ck, tier):
@@ -140,9 +141,9 @@ def conditional_part(ck, tier):
             others = [j for j in range(n) if j != i]
             cm[i] = mu[i] - (P[i, others] @ (point[others] - mu[others])) / P[i, i] if others else mu[i]
         ev = [{"ev": "Begin", "n": n}]
-        post = GaussND(mu, cov, lo, hi, point.copy(), ev)
+        post = GaussND(mu, cov, lo, hi, point.copy(), ev, offset=(0.0, -3000.0, 2500.0, -300.0)[case % 4])
         bounds = [(float(a), float(b)) for a, b in zip(lo, hi)]
-        ident = {"case": case, "n": n, "bounds": bounds, "conditioning_point": point.tolist(), "cond_mean": cm.tolist(), "cond_sd": sd.tolist()}
+        ident = {"case": case, "n": n, "log_posterior_offset": (0.0, -3000.0, 2500.0, -300.0)[case % 4], "bounds": bounds, "conditioning_point": point.tolist(), "cond_mean": cm.tolist(), "cond_sd": sd.tolist()}
         ck.case(("cond", case))
         try:
             # one parameter at a time is how get_conditionals works; the trace keeps the per-parameter order
